@@ -349,6 +349,30 @@ def gen_message(rng, cfg, codec, bits=None, with_pds=None, lengths=None):
     return msg, exp
 
 
+def gen_mixed_pds(rng, cfg, codec):
+    """a message that supplies PDSxxxx keys (few, fitting the first carrier) AND, directly, a LATER carrier element holding
+    other sub-elements: the packer fills the first carrier and must leave the supplied one alone.  Returns (msg, expected)"""
+    carriers = sorted(int(k) for k, fc in cfg.items() if fc.get('field_processor') == 'PDS')
+    if len(carriers) < 2:
+        return None
+    msg = {'MTI': text(rng, codec, 4, 'digits')}
+    exp = dict(msg)
+    tags = rng.sample(range(0, 10000), 6)
+    for t in tags[:rng.randrange(1, 4)]:
+        v = text(rng, codec, rng.randrange(0, 40))
+        msg[f'PDS{t:04}'] = v
+        exp[f'PDS{t:04}'] = v
+    later = rng.choice(carriers[1:])
+    ents = [(t, text(rng, codec, rng.randrange(0, 30))) for t in tags[3:3 + rng.randrange(1, 4)]]
+    msg[f'DE{later}'] = pds_text(ents)
+    exp[f'DE{later}'] = pds_text(ents)
+    for t, v in ents:
+        exp[f'PDS{t:04}'] = v
+    items = list(msg.items())
+    rng.shuffle(items)
+    return dict(items), exp
+
+
 def dict_unwire(s):
     """inverse of dict_wire for the keys/values the generators produce"""
     out = {}
